@@ -829,6 +829,38 @@ v('C04', 'fire', E, 'util.mm_prod(R, V_skew))', 'util.mm_prod(V_skew, R))', 'ope
 v('C04', 'fire', E, '(-util.skew_matrix(rho_n + Omega_n) +', '(-util.skew_matrix(rho_n) +', 'Earth rate dropped from the attitude block')
 
 
+# ------------------------------------------------------------------ round-7 seeds
+v('C02 C17', 'fire', K, ['    norm2 = np.sum(rv ** 2)\n', '    dBn = np.empty((3, 3))\n    dBb = np.empty((3, 3))\n'],
+  ['    norm2 = np.sum(rv ** 2)\n    if norm2 == 0:\n        return\n\n', '    dBn = np.eye(3)\n    dBb = np.eye(3)\n'],
+  'round-7 seed C02: null rotations skipped, scratch matrices pre-set to identity')
+v('C03', 'fire', 'sim.py', 'VU_spline = CubicSpline(time, -velocity_n[:, 2])', "VU_spline = CubicSpline(time, -velocity_n[:, 2], bc_type='natural')",
+  'round-7 seed C03: natural end conditions')
+v('C03', 'silent', 'sim.py', 'VU_spline = CubicSpline(time, -velocity_n[:, 2])', "VU_spline = CubicSpline(time, -velocity_n[:, 2], bc_type='not-a-knot')",
+  'the default end condition spelled out')
+v('C05 C18', 'fire', T, '    rn, _, rp = earth.principal_radii(lla[:, 0], lla[:, 2])\n\n    lla[:, 0] += np.rad2deg(dr_n[:, 0] / rn)',
+  '    rn, _, rp = earth.principal_radii(lla[:, 0], lla[:, 2])\n    rp = np.maximum(rp, 0.1 * rn)\n\n    lla[:, 0] += np.rad2deg(dr_n[:, 0] / rn)',
+  'round-7 seed C05: parallel radius floored inside the latitude domain')
+v('C08 C07', 'fire', KA, ['    n = len(F)\n', '    H = expm(H * dt)\n'],
+  ['    F = np.asarray(F, dtype=float)\n    Q = np.asarray(Q, dtype=float)\n    n = len(F)\n    F *= dt\n    Q *= dt\n', '    H = expm(H)\n'],
+  'round-7 seed C08: the step multiplied into the caller\'s F and Q')
+v('C10 C11', 'fire', FL, ['gyro_average = increments_batch[THETA_COLS].sum(axis=0) / time_delta', 'accel_average = increments_batch[DV_COLS].sum(axis=0) / time_delta'],
+  ["gyro_average = increments_batch[THETA_COLS].sum(axis=0) / increments_batch['dt'].sum()", "accel_average = increments_batch[DV_COLS].sum(axis=0) / increments_batch['dt'].sum()"],
+  'round-7 seed C10: averaged over the batch duration (0/0 for an empty batch)', every=True)
+v('C12', 'fire', F, 'pva_average = _interpolate_pva(pva_old, pva_new, 0.5)', 'pva_average = 0.5 * (pva_old + pva_new)',
+  'round-7 seed C12: arithmetic mean of the attitude angles')
+v('C13', 'fire', 'error_model.py', "        if imu_to_antenna_b is not None:\n            mat_nb = transform.mat_from_rph(pva[RPH_COLS])\n            result[:, self.PHI] = util.skew_matrix(mat_nb @ imu_to_antenna_b)\n        if not self.with_altitude:\n            result = result @ self._transform_3d_2d(pva.VN, pva.VE)\n            result = result[:2]",
+  "        if imu_to_antenna_b is None:\n            return (result if self.with_altitude\n                    else result @ self.TRANSFORM_2D_3D.transpose())\n        mat_nb = transform.mat_from_rph(pva[RPH_COLS])\n        result[:, self.PHI] = util.skew_matrix(mat_nb @ imu_to_antenna_b)\n        if not self.with_altitude:\n            result = result @ self._transform_3d_2d(pva.VN, pva.VE)\n            result = result[:2]",
+  'round-7 seed C13: fast path without the row cut')
+v('C14 C11 C12', 'fire', IS, '            H = self.H.copy()\n', '            H = self.H\n', 'round-7 seed C14: output matrix written into the model\'s own H')
+v('C15', 'fire', S, '    theta = gyro_increment + coning\n', '    gap = dt[:, 0] > 1.5 * np.median(dt)\n    coning[gap] = 0\n    sculling[gap] = 0\n\n    theta = gyro_increment + coning\n',
+  'round-7 seed C15: corrections zeroed on long intervals')
+v('C17 C16 C19', 'fire', T, "    return Rotation.from_euler('xyz', rph, degrees=True).as_matrix()",
+  "    rph = np.asarray(rph, dtype=float)\n    if len(rph) != 3:\n        rph = rph.T\n    return Rotation.from_euler('xyz', rph.T if rph.ndim == 2 else rph, degrees=True).as_matrix()",
+  'round-7 seed C17 (the dispatch only): single triple told from a stack by its length')
+v('C18', 'fire', T, '    return all(col in data for col in RPH_COLS)', '    return set(RPH_COLS).issubset(data)', 'round-7 seed C18: subset test iterates the values of a Series')
+v('C18', 'silent', T, '    return all(col in data for col in RPH_COLS)', '    return set(RPH_COLS).issubset(data.keys())', 'subset test over the labels')
+
+
 # ---------------------------------------------------------------- refactorings (fifth session)
 # Behaviour-preserving refactorings written by sub-agents that saw nothing of /verif (each comes
 # with an equivalence demonstration against the original on random inputs); must stay silent.
